@@ -52,9 +52,18 @@ def fnnls_cholesky(
 
     if P_initial.shape[0] != 0:
         P_number = np.arange(len(P), dtype="int")
-        P_inorder = P_number[P_initial]
         s_chol[P] = lstsq((ZTZ)[P][:, P], (ZTx)[P])
-        d = s_chol.clip(min=0)
+        # The warm start is only a valid state of the active-set algorithm if its least-squares solution is
+        # strictly positive. Otherwise repair it: move the non-positive entries to the active set and solve again.
+        while np.any(P) and np.min(s_chol[P]) <= tolerance:
+            P[s_chol <= tolerance] = False
+            s_chol[~P] = 0.0
+            if np.any(P):
+                s_chol[P] = lstsq((ZTZ)[P][:, P], (ZTx)[P])
+        P_inorder = P_number[P]
+        d = s_chol.copy()
+        # the gradient must belong to the warm-started solution (it was computed for d = 0 above)
+        w = ZTx - (ZTZ) @ d
     else:
         P_inorder = np.array([], dtype="int")
 
